@@ -281,6 +281,34 @@ def q_mol_sd(c, A, ctx):
     return c.molecule_shape_descriptors(mols[A["mol_i"] % len(mols)], l_max=2, radius=A["r"])
 
 
+def q_atomic_sd(c, A, ctx):
+    return c.atomic_shape_descriptors(l_max=2, radius=min(A["r"], 3.8))
+
+
+def q_group_sd(c, A, ctx):
+    n = len(c.asymmetric_unit)
+    return c.shape_descriptors(kind="atom_group", atoms=sorted({0, n // 2}), l_max=2, radius=min(A["r"], 3.8))
+
+
+def q_fgroup(c, A, ctx):
+    # needs graph_tool for the sub-structure match; without it the call raises
+    # for the used and the fresh crystal alike - after it built the molecules
+    return c.functional_group_shape_descriptors(l_max=2, radius=min(A["r"], 3.8), kind="carboxylic_acid")
+
+
+def _meshes(surfaces):
+    return [[np.asarray(m.vertices), np.asarray(m.faces)] for m in surfaces]
+
+
+def q_hirsh(c, A, ctx):
+    # isosurfaces need the optional plotting stack; where it is absent both sides raise part-way
+    return _meshes(c.hirshfeld_surfaces(separation=1.0))
+
+
+def q_promol(c, A, ctx):
+    return _meshes(c.promolecule_density_isosurfaces(separation=1.0))
+
+
 # ---- how an answer is *read* (applied when the answer is normalised, which
 # for deferred inspection is later than the call): the documented members of
 # the per-site tables are accessed by key, as a user would
@@ -390,6 +418,11 @@ SLOW_QUERIES = {
     "scene": (q_scene, "C"),
     "nn_info": (q_nn_info, "C"),
     "mol_sd": (q_mol_sd, "C"),
+    "atomic_sd": (q_atomic_sd, "C"),
+    "group_sd": (q_group_sd, "C"),
+    "fgroup": (q_fgroup, "C"),
+    "hirsh": (q_hirsh, "C"),
+    "promol": (q_promol, "C"),
 }
 ALL_QUERIES = dict(QUERIES)
 ALL_QUERIES.update(SLOW_QUERIES)
